@@ -15,7 +15,7 @@ RULE = ("seeded datasets (simple/hive/drill, 0-2 partition columns, any row-grou
         "distinct (scheme, n_partitions, transform chain kinds, terminal kind, index mode) tuples")
 ASSUMPTIONS = ["the full read of the same handle is the oracle (tied to the input by C01)",
                "labels of an automatic range index are not compared"]
-CASE_TIMEOUT = 240
+CASE_TIMEOUT = 120
 
 from vf.gen import datasets as D
 from vf.gen import frames as F
@@ -197,6 +197,7 @@ def run_case(case):
         rng = np.random.default_rng([case["pseed"], 1])
         nprog = case.get("nprog", 30)
         n_cmp = 0
+        shared_sel = {}
         for k in range(nprog):
             prog = gen_program(rng, nrg, colnames, meta_index, scheme, len(flat), filecols=[c for c in colnames if c not in pf.cats], multi=bool(case.get("multi")))
             if k == 0:
@@ -233,7 +234,9 @@ def run_case(case):
             try:
                 kw = {}
                 if cols is not None:
-                    kw["columns"] = list(cols)
+                    # one list object per distinct selection, reused by every later read of this case (as a caller holding a selection does)
+                    kw["columns"] = shared_sel.setdefault(tuple(cols), list(cols))
+                    counters["reads_with_a_reused_selection_object"] = counters.get("reads_with_a_reused_selection_object", 0) + 1
                 if "index" in term:
                     kw["index"] = index
                 if term["t"] == "to_pandas":
@@ -286,6 +289,10 @@ def run_case(case):
                 res["failures"].append({"kind": "program_raised", "stage": term["t"], "prog": prog, "n_rg": nrg, "n_sel": len(sel),
                                         "partition_on": opts.get("partition_on") or [], **C.exc_shape(e)})
                 continue
+            finally:
+                if cols is not None and kw.get("columns") is not None and kw["columns"] != list(cols):
+                    res["failures"].append({"kind": "read_changed_the_callers_selection", "prog": prog, "selection_before": list(cols), "selection_after": list(kw["columns"])[:12]})
+                    shared_sel[tuple(cols)] = list(cols)
             if got is None:
                 if len(exp):
                     res["failures"].append({"kind": "iter_lost_rows", "prog": prog, "expected_rows": len(exp)})
@@ -379,4 +386,4 @@ def coverage_extra(agg):
 
 
 def required(tier):
-    return {"programs_compared": 2000, "x:slice": 100, "x:pickle": 100, "x:deepcopy": 50, "x:filelike": 10, "t:head": 100, "t:iter": 100}
+    return {"programs_compared": 2000, "x:slice": 100, "x:pickle": 100, "x:deepcopy": 50, "x:filelike": 10, "t:head": 100, "t:iter": 100, "reads_with_a_reused_selection_object": 500}
